@@ -51,11 +51,18 @@ impl Topology {
         // Smallest edge length whose hypercube holds all indices (integer arithmetic: the
         // floating point root overshoots at exact powers, e.g. 125 cells in 3 dimensions)
         let mut nedge: usize = 1;
+        // (a dimension count beyond u32 must not wrap around to a small exponent)
+        let exponent = if *ndim > u32::MAX as usize { u32::MAX } else { *ndim as u32 };
         while nedge
-            .checked_pow(*ndim as u32)
+            .checked_pow(exponent)
             .map_or(false, |cells| cells < *ntotal)
         {
             nedge += 1;
+        }
+        // With an edge length of two or more the strides of more than 64 dimensions exceed the
+        // index range: there is no decomposition (and no reason to allocate ndim components)
+        if nedge > 1 && *ndim > 64 {
+            return None;
         }
         if let Some(dindex) = Topology::decompose_index(index, &nedge, ndim) {
             let mut neighbors = vec![];
